@@ -13,6 +13,9 @@ from .nativeio import native, HERE
 from .source import Unsupported
 
 
+_CORPUS = {}
+
+
 def _clean(x):
     if isinstance(x, dict): return {str(k): _clean(v) for k, v in x.items() if not isinstance(k, tuple)}
     if isinstance(x, (list, tuple)): return [_clean(v) for v in x]
@@ -49,13 +52,18 @@ def write_replay(prop, r, src, cx):
                         doc['failing_input'] = c; doc['native_failures'] = fails; doc['source'] = 'solver model'
                         break
             if doc['failing_input'] is None and _has_native(prop):
-                corpus = native(dict(cmd='corpus', prop=prop, seed=getattr(cx, 'seed', 0), n=60 if cx.tier == 'quick' else 400))
-                out = native(dict(cmd='check', prop=prop, cases=corpus))
-                tried += len(corpus)
-                for c, fails in zip(corpus, out):
-                    if fails and not any(str(f).startswith('CHECKER-EXCEPTION') for f in fails):
-                        doc['failing_input'] = c; doc['native_failures'] = fails; doc['source'] = 'native corpus'
-                        break
+                if prop not in _CORPUS:          # one native corpus run per check run
+                    corpus = native(dict(cmd='corpus', prop=prop, seed=getattr(cx, 'seed', 0), n=60 if cx.tier == 'quick' else 400))
+                    out = native(dict(cmd='check', prop=prop, cases=corpus))
+                    hit = None
+                    for c, fails in zip(corpus, out):
+                        if fails and not any(str(f).startswith('CHECKER-EXCEPTION') for f in fails):
+                            hit = (c, fails); break
+                    _CORPUS[prop] = (len(corpus), hit)
+                n_, hit = _CORPUS[prop]
+                tried += n_
+                if hit is not None:
+                    doc['failing_input'], doc['native_failures'] = hit; doc['source'] = 'native corpus'
             doc['native_cases_tried'] = tried
             r['replayed'] = doc['failing_input'] is not None
         except Exception as x:
